@@ -540,6 +540,24 @@ func c21Run(c *fx.Ctx) {
 			}
 		}
 	}
+	// 2b. (thorough) all triples of tags on three fields
+	if c.Thorough() {
+		for _, t1 := range tags {
+			for _, t2 := range tags {
+				if !c.Take() {
+					continue
+				}
+				for _, t3 := range tags {
+					for _, st := range styles {
+						for _, om := range omits {
+							c21Marshal(c, []c21Field{{Name: "AbCd", Tag: t1, Val: "int5"}, {Name: "URLValue", Tag: t2, Val: "sliceNil"}, {Name: "Sha256Sum", Tag: t3, Val: "strS"}}, st, om, "three-fields")
+							c21Marshal(c, []c21Field{{Name: "AbCd", Tag: t1, Val: "int0"}, {Name: "URLValue", Tag: t2, Val: "map1"}, {Name: "Sha256Sum", Tag: t3, Val: "ptrNil"}}, st, om, "three-fields")
+						}
+					}
+				}
+			}
+		}
+	}
 	// 3. order tags on three and four fields: every assignment over {none, 1, 2, -1, 1}
 	ord := []string{"", "order=1", "order=2", "order=-1", "order=1,omit_never"}
 	for a := range ord {
@@ -693,7 +711,7 @@ func init() {
 	register(&fx.Check{
 		ID:    "C21",
 		Level: "exploration",
-		Rule: "marshal: every single field over 8 field names × 12 tag spellings × 12 values; every pair of tags on two fields × 3 value pairs; an embedded struct (plain / ce:omit / omit_never, zero and non-zero) between two tagged fields; every assignment of 5 order tags to 4 fields — each under both field-name styles and all four default omit behaviours; oracle: a reference model written from the property (kept fields once each, stable order by order tag then declaration, tagged or styled name) compared with the recorded events; two values of one struct type with different omitted fields (5×5 value assignments × 5 tag sets) as elements of one slice and as two documents from one iterator. " +
+		Rule: "marshal: every single field over 8 field names × 12 tag spellings × 12 values; every pair of tags on two fields × 3 value pairs (thorough: every triple of tags on three fields × 2 value triples); an embedded struct (plain / ce:omit / omit_never, zero and non-zero) between two tagged fields; every assignment of 5 order tags to 4 fields — each under both field-name styles and all four default omit behaviours; oracle: a reference model written from the property (kept fields once each, stable order by order tag then declaration, tagged or styled name) compared with the recorded events; two values of one struct type with different omitted fields (5×5 value assignments × 5 tag sets) as elements of one slice and as two documents from one iterator. " +
 			"unmarshal: 5 two-field structs (incl. two fields whose names differ only by case, one via a name tag) × 10 spellings of each key (incl. runs of underscores) × both key orders × an unknown key (scalar, long string, nested list, nested map) at each position × case-insensitive on/off × CBE/CTE; oracle: a key that names exactly one field sets it, unknown keys are skipped, other fields keep their zero value; distinct_nontrivial = distinct cases that agreed with the model",
 		Assumptions: []string{"whether a name= tag is additionally snake-cased is a don't-care (both accepted)", "in case-sensitive mode keys that differ from a field name only in case/underscores are not judged", "keys that match two fields after normalisation are not judged"},
 		TrustedBase: []string{"reference naming/omission/order model in c21.go", "harness value tree"},
